@@ -579,6 +579,7 @@ RULES = [
     ("C09.tables", lambda c, r: lfht.rule_mm(c, r, "C09.tables")),
     ("C09.newparams", lambda c, r: lfht.rule_newparams(c, r, "C09.newparams")),   # bucket memory of a level is allocated (again) before the level is published   # a shrink unlinks the level's bucket nodes before freeing it
     ("C09.wq", lambda c, r: __import__("sa.rules.wq", fromlist=["x"]).rule_workqueue(c, r, "C09.wq")),   # the work queue that executes resizes / deferred destroys
+    ("C09.wqpause", lambda c, r: pat.shared(__import__("sa.rules.c16", fromlist=["x"]).rule_pause, "C09.wqpause", lambda x: "workqueue." in x["instance"] or x["status"] != "pass")(c, r)),   # a resize in flight at fork(): the worker is parked (PAUSED acknowledged) before the fork, or the child inherits resize_mutex locked by a thread that does not exist
     ("C09.gpmutex", lambda c, r: __import__("sa.rules.lfht2", fromlist=["x"]).rule_gpmutex(c, r, "C09.gpmutex")),   # cds_lfht_resize() returns: nobody waits online for the mutex that is held across the shrink's grace period
     ("C09.attr", lambda c, r: __import__("sa.rules.lfht2", fromlist=["x"]).rule_attr_handback(c, r, "C09.attr")),   # a resize step in flight when an auto-resize table is destroyed must not create its helper threads from the attribute the caller was handed back
     ("C09.partition_thread", lambda c, r: __import__("sa.rules.lfht2", fromlist=["x"]).rule_partition_thread(c, r, "C09.partition_thread")),
